@@ -28,6 +28,20 @@ add("C22", "E1-scheduler", "exploration",
     "Bound: capacity 2, <=2 producers x <=3 items, <=2 consumers, optional closer/canceller/Grow thread. Trusted: the vrt scheduler's models of mutex/RWMutex/atomics/channels/select, tools/vgen's rewrite, race freedom of plain accesses (separate -race pass), fair-scheduling rule for spin loops. TryRecv=false is always accepted.",
     "stateless model checking of the implementation: controlled cooperative scheduler, DFS over schedules with iterative preemption bounding and Mazurkiewicz-trace state keys; linearizability oracle")
 
+add("C28", "E5-finite", "exploration",
+    "Complete enumeration of a finite token space: every position x type x key round trip, and for each issued token every single-byte substitution/insertion/truncation, every base64-text mutation, every other key and every plain-base64 forgery, through Decode and the real ReadChanges command; each must be rejected or be a respelling of the same bytes.",
+    "Bound: 112 positions x 6 key settings; 6 issued tokens (50 in thorough); mutations at edit distance 1. Trusted: Go's AES-GCM and base64 packages; an independent base64url/`ulid|type` codec written in the harness.",
+    "exhaustive enumeration of a finite input domain on the implementation against an independent codec")
+add("C29", "E5-finite", "exploration",
+    "All strings of length <=5 (<=6 thorough) over an 8-symbol alphabet containing every separator, space, control and multi-byte character, and all (type,id,relation) triples over a component alphabet, are run through every validity predicate, parser and renderer of pkg/tuple and compared with an independent grammar; every valid value is round-tripped.",
+    "Bound: alphabet {a : # @ * space newline e-acute}, length <=5/6; components <=2 symbols (<=3 thorough). Trusted: the harness grammar (h/c29/grammar.go) transcribed from the doc comments; `@` is accepted inside a userset's relation part as IsValidUser documents.",
+    "exhaustive enumeration of a finite input domain on the implementation against an independent grammar")
+
+add("C21", "E1-scheduler", "exploration",
+    "The whole streaming pipeline (real Builder, weighted graph, workers, cycle groups, status pool, queues; instrumented at build time) runs under the controlled scheduler over small cyclic models; schedules are enumerated depth-first with iterative preemption bounding and state-key pruning inside a per-scenario time budget; every execution must terminate with Close returned, no thread left, and exactly the reference object set.",
+    "Bound: 7 cyclic/acyclic model shapes, <=4 tuples, chunk/buffer/procs in {1,2}; preemption bound 0 is the target in quick (time-capped per scenario: evidence says which bounds completed; exhaustive:false when a required bound was cut). Trusted: vrt scheduler models, vgen rewrite, uninstrumented memory store/typesystem/otel never block across a scheduling point.",
+    "stateless model checking of the implementation: controlled cooperative scheduler, DFS over schedules with preemption bounding and trace-key pruning")
+
 NOT_BUILT ="check not built yet in this session; see DESIGN.md §5 for the planned decision procedure"
 NA = {}
 
